@@ -287,6 +287,32 @@ def campaign(c):
         else:
             c.violation('payload:bufio-failed', 'bufio program failed: %s' % (impl['outcome'],), dict(src=src.decode()[:2000]))
         c.case(('bufio', i), dict(kind='bufio', reads=reads, n=len(data)) if i % 10 == 0 else None)
+    # several buffers over EQUAL content (and one over other content), read in turn: each has its own cursor
+    for i in range(16 if c.quick else 300):
+        r = c.rng.fork('bufio2-%d' % i)
+        data = r.bytes(r.choice([5, 36, 40, 300]))
+        nb = 2 + r.below(2)
+        datas = [data] * nb + [r.bytes(len(data))]
+        lines = [HEAD] + ['let b%d = io::bufio("|%s|");' % (j, d.hex()) for j, d in enumerate(datas)]
+        if r.chance(1, 2): lines.insert(2, 'eth::frame("|000000000001|", "|000000000002|", b0.read(0));')      # a use between the bindings
+        pos = [0] * len(datas); want = []
+        for _ in range(3 + r.below(10)):
+            j = r.below(len(datas)); k = r.choice([0, 1, 2, 7, 10, r.below(50)])
+            if r.chance(1, 6):
+                lines.append('eth::frame("|000000000001|", "|000000000002|", b%d.read_all());' % j); want.append(datas[j][pos[j]:]); pos[j] = len(datas[j])
+            else:
+                lines.append('eth::frame("|000000000001|", "|000000000002|", b%d.read(%d));' % (j, k)); want.append(datas[j][pos[j]:pos[j] + k]); pos[j] = min(len(datas[j]), pos[j] + k)
+        src = ('\n'.join(lines) + '\n').encode()
+        impl, model = progdiff.run_both(c, src)
+        progdiff.compare(c, src, impl, model, 'bufio-several')
+        if impl['outcome'][0] == 'success':
+            got = [x[1][14:] for x in progdiff.pcap_records(impl['file'])]
+            if 'b0.read(0)' in lines[2]: got = got[1:]
+            if got != want:
+                c.violation('payload:bufio', 'with several buffers over equal content, the reads of one buffer are not consecutive slices of ITS content', dict(src=src.decode()[:3000]))
+        else:
+            c.violation('payload:bufio-failed', 'bufio program failed: %s' % (impl['outcome'],), dict(src=src.decode()[:2000]))
+        c.case(('bufio2', i), dict(kind='bufio-several', buffers=len(datas)) if i % 5 == 0 else None)
     c.assumptions += ['the expected payload is the byte string chosen before it was spelled (ground truth by construction)',
                       'payload offsets are the fixed header lengths of each builder (Ethernet 14, IPv4 20, TCP 20, UDP 8, ICMP echo 8, VXLAN 8, GRE 4, TLS record 5)']
 
